@@ -57,4 +57,12 @@ static inline int spec_stages(const uint64_t x[128], const uint64_t y[128], cons
 	for (int i = 0; i < 128; ++i) ok = ok && q2[i] == q[i];
 	return ok;
 }
+/* out = G(x, y) (xor old, when with_xor): the result block q2 ^ t of the staged computation above */
+static inline void spec_G(const uint64_t x[128], const uint64_t y[128], const uint64_t old[128], int with_xor, uint64_t out[128]) {
+	uint64_t r[128], q[128]; uint64_t* v[16];
+	for (int i = 0; i < 128; ++i) { r[i] = x[i] ^ y[i]; q[i] = r[i]; }
+	for (int i = 0; i < 8; ++i) { for (int k = 0; k < 16; ++k) v[k] = &q[16 * i + k]; spec_P(v); }
+	for (int i = 0; i < 8; ++i) { for (int k = 0; k < 8; ++k) { v[2 * k] = &q[2 * i + 16 * k]; v[2 * k + 1] = &q[2 * i + 16 * k + 1]; } spec_P(v); }
+	for (int i = 0; i < 128; ++i) out[i] = q[i] ^ r[i] ^ (with_xor ? old[i] : 0);
+}
 #endif
